@@ -53,7 +53,8 @@ import (
 func TestMain(m *testing.M) { evid.Main(m) }
 
 // ---------------------------------------------------------------------------------------------
-// RSA keys: generated once per process from a fixed seed (2 x 2048, 1 x 3072 bit, e = 65537).
+// RSA keys: generated once per process from a fixed seed (2 x 2048, 1 x 3072 bit, e = 65537), plus
+// two committed keys with 2049- and 2055-bit moduli.
 
 const rsaPoolSeed = 0xC09C09C09
 
@@ -73,6 +74,25 @@ func rsaKeys() []*rsa.PrivateKey {
 			if k.E != 65537 || k.N.BitLen() != bits {
 				panic("unexpected RSA key shape")
 			}
+			rsaPool = append(rsaPool, k)
+		}
+		// indices 3 and 4: moduli of 2049 and 2055 bits (see rsaodd_test.go)
+		for _, o := range oddRSAKeys {
+			h := func(s string) *big.Int {
+				v, ok := new(big.Int).SetString(s, 16)
+				if !ok {
+					panic("c09: bad hex in oddRSAKeys")
+				}
+				return v
+			}
+			k := &rsa.PrivateKey{PublicKey: rsa.PublicKey{N: h(o.n), E: 65537}, D: h(o.d), Primes: []*big.Int{h(o.p), h(o.q)}}
+			if k.N.BitLen() != o.bits || new(big.Int).Mul(k.Primes[0], k.Primes[1]).Cmp(k.N) != 0 {
+				panic("c09: inconsistent entry in oddRSAKeys")
+			}
+			if err := k.Validate(); err != nil {
+				panic("c09: oddRSAKeys: " + err.Error())
+			}
+			k.Precompute()
 			rsaPool = append(rsaPool, k)
 		}
 	})
@@ -200,9 +220,13 @@ func drawMaterialFor(rt *rapid.T, label, fam, alg string) *jkey {
 		k.matDesc = "ec-scalar=" + hex.EncodeToString(k.ecScalar)
 	case "RS", "PS":
 		pool := rsaKeys()
-		k.rsaIndex = rapid.SampledFrom([]int{0, 0, 1, 1, 2}).Draw(rt, label+"_rsa_pool_index")
+		k.rsaIndex = rapid.SampledFrom([]int{0, 0, 0, 1, 1, 1, 2, 2, 3, 4}).Draw(rt, label+"_rsa_pool_index")
 		k.mat = jwtref.Material{RSA: pool[k.rsaIndex]}
-		k.matDesc = fmt.Sprintf("rsa-pool[%d](seed %#x, %d bit) n=%x d=%x", k.rsaIndex, rsaPoolSeed, pool[k.rsaIndex].N.BitLen(), pool[k.rsaIndex].N, pool[k.rsaIndex].D)
+		origin := fmt.Sprintf("seed %#x", rsaPoolSeed)
+		if k.rsaIndex >= 3 {
+			origin = "committed key, rsaodd_test.go"
+		}
+		k.matDesc = fmt.Sprintf("rsa-pool[%d](%s, %d bit) n=%x d=%x", k.rsaIndex, origin, pool[k.rsaIndex].N.BitLen(), pool[k.rsaIndex].N, pool[k.rsaIndex].D)
 	case "ML-DSA":
 		k.mldsaSeed = gen.BytesN(rt, label+"_mldsa_seed", 32)
 		pk, sk := mldsaref.KeyGenInternal(jwtref.MLDSAParams(k.alg), [32]byte(k.mldsaSeed))
